@@ -233,6 +233,26 @@ def rule_cli(ck, aspects=("exit", "writes", "noninterference")):
     ck.instance(("cli", "arguments"), {"defined": sorted(defined), "read by main_cli": sorted(reads)}, fn=where)
     if not argnames or len(defined) < 5:
         ck.unknown(f"the argument parser of _cli is not recognised ({sorted(defined)})")
+    # both report formats the handlers implement are selectable, and the default is one of them
+    for c in _ast.walk(cli.tree):
+        if isinstance(c, _ast.Call) and isinstance(c.func, _ast.Attribute) and c.func.attr == "add_argument" and any(isinstance(a, _ast.Constant) and a.value == "--report-format" for a in c.args):
+            kw = {k.arg: k.value for k in c.keywords}
+            try:
+                choices = _ast.literal_eval(kw["choices"]) if "choices" in kw else None
+                default = _ast.literal_eval(kw["default"]) if "default" in kw else None
+            except ValueError:
+                ck.unknown("--report-format: choices / default are not literals")
+                break
+            compared = {x.value for n_ in _ast.walk(main) if isinstance(n_, _ast.Compare) and "report_format" in _ast.unparse(n_) for x in _ast.walk(n_) if isinstance(x, _ast.Constant) and isinstance(x.value, str)}
+            ck.instance(("cli", "report-format"), {"choices": choices, "default": default, "formats main_cli tells apart": sorted(compared)}, fn=where)
+            if choices is not None and (not {"graphical", "bare"} <= set(choices) or not compared <= set(choices)):
+                ck.violation(where, f"--report-format accepts {choices}; both formats ('graphical', 'bare') and every format main_cli tests for ({sorted(compared)}) have to be selectable: "
+                                    "a run that asks for the missing one ends in a usage error (exit 2, nothing assembled) whatever the program", construct="cli report-format choices")
+            if choices is not None and default is not None and default not in choices:
+                ck.violation(where, f"--report-format defaults to {default!r}, which is not among {choices}", construct="cli report-format default")
+            break
+    else:
+        ck.unknown("no --report-format option found in _cli")
     for r in sorted(reads - defined):
         ck.violation(where, f"main_cli reads args.{r}, but no add_argument defines it: every run dies with AttributeError before anything is assembled", construct=f"cli argument {r} undefined")
     for cfg in matrix():
@@ -256,6 +276,11 @@ def rule_cli(ck, aspects=("exit", "writes", "noninterference")):
             ck.violation(where, f"[{label}] the compiler receives {compiles[0][2] if compiles else None} for the input files {infiles}; expected the parse of each file, in order, in one compilation",
                          construct="cli hands every parsed file to the compiler")
             continue
+        # what the compiler returned - (link base, image) - is what the directives' outputs are written from, in that order
+        for e in events:
+            if e[0] == "emit_files" and (e[1] != BASE or e[2] != CODE):
+                ck.violation(where, f"[{label}] emit_files receives ({e[1]!r}, {e[2]!r}); the compiler returned (base, image) = ({BASE!r}, {CODE!r}) and emit_files(base, code) writes the files the source asked for from them",
+                             construct="cli hands (base, image) to emit_files")
         if "exit" in aspects:
             if bool(code) != bool(want_code):
                 ck.violation(where, f"[{label}] exit status is {code!r}, expected {'non-zero' if want_code else 'zero (no sys.exit)'}: a run fails iff an error was reported",
